@@ -374,6 +374,12 @@ func (o *Obligation) BuildQueryT(withModel bool, lite bool, ground bool, sine bo
 }
 
 func (o *Obligation) BuildQueryD(withModel bool, lite bool, ground bool, sine bool, tol float64, depth int) string {
+	return o.BuildQueryX(withModel, lite, ground, sine, tol, depth, false)
+}
+
+// BuildQueryX: with extras, ground closedness and frame instances are added for the heap reads that occur in
+// hypothesis instances created while the query is built (terms that never went through rd/rd2)
+func (o *Obligation) BuildQueryX(withModel bool, lite bool, ground bool, sine bool, tol float64, depth int, extras bool) string {
 	fc := o.fc
 	var sb strings.Builder
 	sb.WriteString(prelude)
@@ -417,6 +423,10 @@ func (o *Obligation) BuildQueryD(withModel bool, lite bool, ground bool, sine bo
 	addc := func(t string) { addk(t, 0) }
 	for _, sk := range o.Skolems {
 		k := fc.skKind[sk]
+		if fc.hasMixedQuant {
+			// positions are used as map keys somewhere in this function's specifications
+			k = 0
+		}
 		addk(sk, k)
 		if k == kKey {
 			continue
@@ -457,6 +467,8 @@ func (o *Obligation) BuildQueryD(withModel bool, lite bool, ground bool, sine bo
 	for _, t := range indexTerms(o.Goal + " " + o.Guard) {
 		addc(t)
 	}
+	closedSeen := map[string]bool{}
+	var closedExtra []string
 	var anc map[*ssa.BasicBlock]bool
 	if o.Block != nil {
 		anc = fc.ancestors(o.Block)
@@ -486,6 +498,10 @@ func (o *Obligation) BuildQueryD(withModel bool, lite bool, ground bool, sine bo
 				} else {
 					emit(fmt.Sprintf("(assert (=> %s %s))", f.Guard, inst))
 				}
+				if extras {
+					fc.closedForReads(inst, closedSeen, &closedExtra)
+					fc.frameForReads(inst, closedSeen, &closedExtra)
+				}
 			}
 		}
 		term := f.Term
@@ -500,6 +516,7 @@ func (o *Obligation) BuildQueryD(withModel bool, lite bool, ground bool, sine bo
 			emit(fmt.Sprintf("(assert (=> %s %s))", f.Guard, term))
 		}
 	}
+	body = append(body, closedExtra...)
 	if sine {
 		keep := sineSelectD(body, o.Guard+" "+o.Goal, tol, depth)
 		for i, t := range body {
